@@ -1,0 +1,18 @@
+// SPDX-FileCopyrightText: 2020-present Open Networking Foundation <info@opennetworking.org>
+//
+// SPDX-License-Identifier: Apache-2.0
+
+//go:build verif
+
+package mastership
+
+import (
+	"github.com/onosproject/onos-config/pkg/store/topo"
+	configurationstore "github.com/onosproject/onos-config/pkg/store/v3/configuration"
+	"github.com/onosproject/onos-lib-go/pkg/controller"
+)
+
+// NewReconcilerForVerif returns the v3 mastership reconciler on its own, without the controller runtime
+func NewReconcilerForVerif(topo topo.Store, configurations configurationstore.Store) controller.Reconciler {
+	return &Reconciler{topo: topo, configurations: configurations}
+}
